@@ -3,21 +3,44 @@
    stand-ins used when the model is executed next to the implementation:
    allocations up to 2^50 bytes succeed, larger ones fail; qsort = insertion
    sort (any sorted permutation of integers is that one, VectorProofs). *)
-From Robsd Require Export Ks.VectorSpec Ks.BufferSpec Ks.MapSpec.
+From Robsd Require Export Ks.VectorSpec Ks.BufferSpec Ks.GetlineDefs Ks.MapSpec Ks.MapMultiSpec Ks.MapAllocDefs.
 From RobsdGen Require Gen_KsConst.
 Local Open Scope Z_scope.
 
 Definition alloc_ok_inst (sz : Z) : bool := sz <=? 1125899906842624.
 
+(* allocation-failure injection as the harness performs it: requests of exactly the listed byte sizes are
+   refused as well (the realloc callbacks of harness/ks_harness.c, strict mode) *)
+Definition alloc_ok_f (fails : list Z) (sz : Z) : bool :=
+  (sz <=? 1125899906842624) && negb (existsb (Z.eqb sz) fails).
+
+Definition vrun_instf (fails : list Z) (stride hdr : Z) (ops : list vop) : list (vout * Z) :=
+  snd (vrun stride hdr Gen_KsConst.vector_init_cap (alloc_ok_f fails) isort vec0 ops).
 Definition vrun_inst (stride hdr : Z) (ops : list vop) : list (vout * Z) :=
   snd (vrun stride hdr Gen_KsConst.vector_init_cap alloc_ok_inst isort vec0 ops).
 
 (* buffer_alloc(init_size) followed by the operations; None = buffer_alloc returned NULL *)
+Definition brun_instf (fails : list Z) (init_size : Z) (ops : list bop) : option (Z * list (bout * Z)) :=
+  match balloc Gen_KsConst.buffer_init_cap (alloc_ok_f fails) init_size with
+  | None => None
+  | Some b => Some (b_siz b, snd (brun Gen_KsConst.buffer_init_cap (alloc_ok_f fails) b ops))
+  end.
 Definition brun_inst (init_size : Z) (ops : list bop) : option (Z * list (bout * Z)) :=
   match balloc Gen_KsConst.buffer_init_cap alloc_ok_inst init_size with
   | None => None
   | Some b => Some (b_siz b, snd (brun Gen_KsConst.buffer_init_cap alloc_ok_inst b ops))
   end.
+
+(* the buffer with a buffer_getline iterator next to it (zeroed at the start) *)
+Definition grun_instf (fails : list Z) (init_size : Z) (ops : list gop) : option (Z * list (gout * Z)) :=
+  match balloc Gen_KsConst.buffer_init_cap (alloc_ok_f fails) init_size with
+  | None => None
+  | Some b => Some (b_siz b, snd (grun Gen_KsConst.buffer_init_cap (alloc_ok_f fails) (mkgbuf b 0) ops))
+  end.
+
+Definition spec_ok_vec_faulty_inst (stride hdr : Z) (tr : list (vop * vout)) : bool :=
+  spec_ok_vec_faulty stride hdr [] tr.
+Definition spec_ok_buf_faulty_inst (tr : list (bop * bout)) : bool := spec_ok_buf_faulty [] tr.
 
 Definition spec_ok_vec_inst (stride hdr : Z) (tr : list (vop * vout)) : bool :=
   spec_ok_vec stride hdr [] tr.
@@ -30,3 +53,15 @@ Definition map_thresh : N := Z.to_N Gen_KsConst.map_bkt_thresh.
 
 Definition mrun_inst (ops : list mop) : list (mout * option shape) * list (N * list N) :=
   let '(m, tr) := mrun hash_jen map_nb map_log2 map_thresh map0 ops in (tr, structure_of m).
+
+(* the map with its allocator: calloc number c (0 = the first after MAP_INIT) returns NULL when c is listed;
+   answers with table shape and allocator calls, final bucket structure, what map_free frees, leaked elements *)
+Definition fails_of (fl : list N) (c : N) : bool := existsb (N.eqb c) fl.
+Definition arun_inst (fl : list N) (ops : list mop)
+  : list (aout * option shape * list aev) * list (N * list N) * list aev * list N :=
+  let '(a, tr) := arun hash_jen map_nb map_log2 map_thresh (fails_of fl) amap0 ops in
+  (tr, structure_of (a_map a), free_all (S (length (m_list (a_map a)))) (a_map a), a_leaked a).
+
+(* the answers of an allocator-aware run as the dictionary oracles see them: a NULL from MAP_INSERT_VALUE has
+   no counterpart there *)
+Definition aout_mout (o : aout) : option mout := match o with AOk m => Some m | _ => None end.
